@@ -1061,6 +1061,8 @@ func (t *tr) stmt(ind int, s ast.Stmt) {
 		}
 		vs = append(vs, t.mutNames()...)
 		t.line(ind, "return %s", tuple(vs))
+	case *ast.SwitchStmt:
+		t.switchStmt(ind, x)
 	case *ast.BlockStmt:
 		t.line(ind, "do")
 		t.block(ind+1, x)
@@ -1104,6 +1106,78 @@ func isLockCall(c *ast.CallExpr) bool {
 		}
 	}
 	return false
+}
+
+// switchStmt: `switch [init;] [tag] { case e1, e2: … default: … }` without fallthrough and without a `break`
+// that leaves the switch is the chain `if tag == e1 || tag == e2 then … else if … else …`; the tag (if any)
+// is evaluated once
+func (t *tr) switchStmt(ind int, x *ast.SwitchStmt) {
+	bad := false
+	var scan func(n ast.Node) bool
+	scan = func(n ast.Node) bool {
+		switch b := n.(type) {
+		case *ast.ForStmt, *ast.RangeStmt, *ast.SwitchStmt, *ast.FuncLit:
+			if n != ast.Node(x) {
+				return false
+			}
+		case *ast.BranchStmt:
+			if b.Tok == token.BREAK || b.Tok == token.FALLTHROUGH {
+				bad = true
+			}
+		}
+		return true
+	}
+	ast.Inspect(x.Body, scan)
+	if bad {
+		fail("switch with break or fallthrough")
+	}
+	t.line(ind, "do")
+	ind++
+	t.push()
+	defer t.pop()
+	if x.Init != nil {
+		t.stmt(ind, x.Init)
+	}
+	tag := ""
+	if x.Tag != nil {
+		v, _ := t.expr(x.Tag)
+		tag = t.fresh()
+		t.line(ind, "let %s := %s", tag, v)
+	}
+	var deflt *ast.CaseClause
+	first := true
+	depth := 0
+	for _, c := range x.Body.List {
+		cc := c.(*ast.CaseClause)
+		if cc.List == nil {
+			deflt = cc
+			continue
+		}
+		var conds []string
+		for _, e := range cc.List {
+			v, _ := t.expr(e)
+			if tag != "" {
+				v = "(" + tag + " == " + v + ")"
+			}
+			conds = append(conds, v)
+		}
+		cond := strings.Join(conds, " || ")
+		if !first {
+			t.line(ind+depth, "else")
+			depth++
+		}
+		first = false
+		t.line(ind+depth, "if %s then", cond)
+		t.block(ind+depth+1, &ast.BlockStmt{List: cc.Body})
+	}
+	if deflt != nil {
+		if first {
+			t.block(ind, &ast.BlockStmt{List: deflt.Body})
+		} else {
+			t.line(ind+depth, "else")
+			t.block(ind+depth+1, &ast.BlockStmt{List: deflt.Body})
+		}
+	}
 }
 
 func tuple(vs []string) string {
